@@ -3730,3 +3730,88 @@ func ruleSliceArray(prog *Program, rep *Report, floor int, rels ...string) {
 	rep.Rules = append(rep.Rules, "K-slicearray: every case clause over reflect kinds that lists reflect.Slice lists reflect.Array too, and the reverse ("+strings.Join(rels, ", ")+")")
 	runSynRule(prog, rep, "K-slicearray", rels, matchSliceArray, fixtureSliceArray, 1, floor)
 }
+
+// ---------------------------------------------------------------- D-poolnew
+
+// rulePoolNew: a parser taken from a pool is supposed to behave like `var p Parser` (every option off, nothing
+// recycled). The New function of a sync.Pool whose elements are one of the parsing front-end types therefore
+// returns the zero value: an option switched on there (Reuse: true) is on for every package-level call, and
+// with Reuse the maps of a returned document stay owned by the pooled parser.
+func rulePoolNew(prog *Program, rep *Report, specs ...feSpec) {
+	rep.Rules = append(rep.Rules, "D-poolnew: the New function of every sync.Pool whose elements are a parsing front-end type (oj.Parser, gen.Parser, sen.Parser, the tokenizers, the validator) returns &T{} with no field set: pooled parsers start as fresh ones")
+	isFE := map[string]bool{}
+	for _, sp := range specs {
+		isFE[sp.rel+"."+sp.typ] = true
+	}
+	n := 0
+	rels := map[string]bool{}
+	for _, sp := range specs {
+		rels[sp.rel] = true
+	}
+	for rel := range rels {
+		pk := prog.Pkg(rel)
+		if pk == nil {
+			rep.Errorf("D-poolnew: package %s not loaded", rel)
+			continue
+		}
+		info := pk.TypesInfo
+		for _, f := range pk.Syntax {
+			ast.Inspect(f, func(nd ast.Node) bool {
+				cl, ok := nd.(*ast.CompositeLit)
+				if !ok {
+					return true
+				}
+				t := info.TypeOf(cl)
+				nt, ok := t.(*types.Named)
+				if !ok || nt.Obj().Name() != "Pool" || nt.Obj().Pkg() == nil || nt.Obj().Pkg().Path() != "sync" {
+					return true
+				}
+				for _, el := range cl.Elts {
+					kv, ok := el.(*ast.KeyValueExpr)
+					if !ok {
+						continue
+					}
+					fl, ok := kv.Value.(*ast.FuncLit)
+					if !ok {
+						continue
+					}
+					ast.Inspect(fl.Body, func(k ast.Node) bool {
+						ret, ok := k.(*ast.ReturnStmt)
+						if !ok || len(ret.Results) != 1 {
+							return true
+						}
+						u, ok := ast.Unparen(ret.Results[0]).(*ast.UnaryExpr)
+						if !ok || u.Op != token.AND {
+							return true
+						}
+						lit, ok := u.X.(*ast.CompositeLit)
+						if !ok {
+							return true
+						}
+						lt, ok := info.TypeOf(lit).(*types.Named)
+						if !ok || !isFE[rel+"."+lt.Obj().Name()] {
+							return true
+						}
+						n++
+						key := fmt.Sprintf("%s.pool-of-%s", rel, lt.Obj().Name())
+						if len(lit.Elts) == 0 {
+							rep.Discharge("D-poolnew", key, prog.Pos(lit.Pos()), "New returns the zero value")
+						} else {
+							var set []string
+							for _, e := range lit.Elts {
+								set = append(set, types.ExprString(e))
+							}
+							rep.Violate(Finding{Rule: "D-poolnew", Key: key, Pos: prog.Pos(lit.Pos()), Msg: fmt.Sprintf("the pool of %s.%s creates its parsers with %s: every package-level call starts from that setting instead of the zero value a fresh parser has", rel, lt.Obj().Name(), strings.Join(set, ", "))})
+						}
+						return true
+					})
+				}
+				return true
+			})
+		}
+	}
+	rep.Eval(n)
+	if n < 2 {
+		rep.Errorf("D-poolnew found %d parser pools (floor 2)", n)
+	}
+}
